@@ -155,9 +155,9 @@ type ConfCase struct {
 	// MetaIssuerSuffix: the served metadata document names the issuer the URL stands for PLUS these characters (another
 	// tenant with a similar name): RFC 8414 3.3 demands the document to be refused
 	MetaIssuerSuffix string
-	SubjectID string         // custom subject.id ("" = default sub)
-	SubjectAt string         // custom subject.attributes
-	Quick     bool
+	SubjectID        string // custom subject.id ("" = default sub)
+	SubjectAt        string // custom subject.attributes
+	Quick            bool
 }
 
 func otherAlg(alg string) string {
